@@ -35,6 +35,9 @@ func init() {
 	gens["bv2"] = genBV2
 	gens["bv0"] = genBV0
 	runs["bv2"] = func(t *Toks) string { return runBV2Line(t) }
+	runs["bvh"] = func(t *Toks) string { return runBVHLine(t) }
+	gens["bvh"] = genBVH
+	checks["C05/bvh"] = checkBVH
 	runs["bv0"] = func(t *Toks) string { return runBV0Line(t) }
 	checks["C05/bv2"] = checkBV2
 	checks["C05/bv0"] = checkBV0
@@ -63,6 +66,7 @@ type bvParty struct {
 	Own  []uint32
 	Outs []uint32
 	Iss  []uint32
+	Fail []uint32 // when not empty: a first call with only these outputs (meant to be refused), then the real call on the same Blinder
 }
 type bvShape struct {
 	Seed    uint64
@@ -110,6 +114,7 @@ func (sh *bvShape) write(b *sb, v0 bool) {
 			wl(p.Own)
 			wl(p.Outs)
 			wl(p.Iss)
+			wl(p.Fail)
 		}
 	} else {
 		b.addn(uint64(len(sh.Sel)))
@@ -163,6 +168,7 @@ func bvReadShape(t *Toks, v0 bool) *bvShape {
 			p.Own = rl()
 			p.Outs = rl()
 			p.Iss = rl()
+			p.Fail = rl()
 			sh.Parties = append(sh.Parties, p)
 		}
 	} else {
@@ -456,14 +462,18 @@ type bvZkpGen interface {
 
 // what one party did, read back from the library's own data
 type bvPartyObs struct {
-	GenOK   int // generator stage: 1 arguments made, 0 error, 2 panic
-	Owned   []psetv2.OwnedInput
-	IssArgs []psetv2.InputIssuanceBlindingArgs
-	OutArgs []psetv2.OutputBlindingArgs
-	ValidOK bool
-	Res     string // ok / err / abort / panic
-	Scalar  []byte // published scalar (non-last)
-	LastVbf []byte // last party
+	FailArgs []psetv2.OutputBlindingArgs // arguments of the first (refused) call
+	FailVOK  bool
+	FailRes  string // "" no first call, else ok / err
+	AtomOK   bool   // the first call, when refused, left Global.Scalars as they were
+	GenOK    int    // generator stage: 1 arguments made, 0 error, 2 panic
+	Owned    []psetv2.OwnedInput
+	IssArgs  []psetv2.InputIssuanceBlindingArgs
+	OutArgs  []psetv2.OutputBlindingArgs
+	ValidOK  bool
+	Res      string // ok / err / abort / panic
+	Scalar   []byte // published scalar (non-last)
+	LastVbf  []byte // last party
 }
 
 type bvV2Result struct {
@@ -492,7 +502,10 @@ func (w *bvWorld) ownedOf(idx []uint32) map[uint32]psetv2.OwnedInput {
 	return m
 }
 
-func bvRunV2(w *bvWorld) (res *bvV2Result) {
+func bvRunV2(w *bvWorld) (res *bvV2Result) { return bvRunV2With(w, nil) }
+
+// shared: one generator object used by every party (history family), nil = one generator per party
+func bvRunV2With(w *bvWorld, shared bvZkpGen) (res *bvV2Result) {
 	sh := w.sh
 	res = &bvV2Result{}
 	p, err := w.buildV2()
@@ -500,7 +513,7 @@ func bvRunV2(w *bvWorld) (res *bvV2Result) {
 		panic("buildV2: " + err.Error())
 	}
 	for k, party := range sh.Parties {
-		obs := bvPartyObs{ValidOK: true}
+		obs := bvPartyObs{ValidOK: true, FailVOK: true, AtomOK: true}
 		if k > 0 {
 			s, err := p.ToBase64()
 			if err != nil {
@@ -518,7 +531,9 @@ func bvRunV2(w *bvWorld) (res *bvV2Result) {
 		}
 		opts := &confidential.ZKPGeneratorOpts{Rng: bvDetRng(sh.Seed, k, sh.Spec)}
 		var gen bvZkpGen
-		if party.Ctor == 0 {
+		if shared != nil {
+			gen = shared
+		} else if party.Ctor == 0 {
 			g, err := confidential.NewZKPGeneratorFromOwnedInputs(w.ownedOf(party.Own), opts)
 			if err != nil {
 				stop("abort")
@@ -567,11 +582,20 @@ func bvRunV2(w *bvWorld) (res *bvV2Result) {
 					return
 				}
 			}
+			var failArgs []psetv2.OutputBlindingArgs
+			if len(party.Fail) > 0 {
+				failArgs, err = gen.BlindOutputs(p, append([]uint32{}, party.Fail...))
+				if err != nil {
+					obs.Res = "abort"
+					return
+				}
+			}
 			outArgs, err := gen.BlindOutputs(p, append([]uint32{}, party.Outs...))
 			if err != nil {
 				obs.Res = "abort"
 				return
 			}
+			obs.FailArgs = append([]psetv2.OutputBlindingArgs{}, failArgs...)
 			obs.GenOK = 1
 			obs.IssArgs = issArgs
 			// the blinder sorts its argument in place: keep our own copy in generation order
@@ -580,6 +604,30 @@ func bvRunV2(w *bvWorld) (res *bvV2Result) {
 			if err != nil {
 				obs.Res = "err"
 				return
+			}
+			if len(party.Fail) > 0 {
+				before := [][]byte{}
+				for _, x := range p.Global.Scalars {
+					before = append(before, append([]byte{}, x...))
+				}
+				var ferr error
+				if last {
+					ferr = blinder.BlindLast(issArgs, failArgs)
+				} else {
+					ferr = blinder.BlindNonLast(issArgs, failArgs)
+				}
+				obs.FailVOK = val.allTrue
+				val.allTrue = true
+				obs.FailRes = "ok"
+				if ferr != nil {
+					obs.FailRes = "err"
+					obs.AtomOK = len(before) == len(p.Global.Scalars)
+					for i := range before {
+						if obs.AtomOK && !bytes.Equal(before[i], p.Global.Scalars[i]) {
+							obs.AtomOK = false
+						}
+					}
+				}
 			}
 			nsc := len(p.Global.Scalars)
 			if last {
@@ -641,6 +689,13 @@ func (r *bvV2Result) writeObs(b *sb) {
 			b.add(bvHxo(x.AssetBlinder))
 			b.add(bvHxo(x.ValueBlinder))
 		}
+		b.add(b2s(o.FailVOK))
+		b.addn(uint64(len(o.FailArgs)))
+		for _, x := range o.FailArgs {
+			b.addn(uint64(x.Index))
+			b.add(bvHxo(x.AssetBlinder))
+			b.add(bvHxo(x.ValueBlinder))
+		}
 	}
 }
 
@@ -660,6 +715,16 @@ func bvV2ResultLine(w *bvWorld, r *bvV2Result) string {
 			} else {
 				s = "ok:" + bvHxo(o.Scalar)
 			}
+		}
+		if o.FailRes != "" {
+			s = "try." + o.FailRes + "." + b2s(o.AtomOK) + "/" + s
+		}
+		if o.GenOK == 1 {
+			var ow []string
+			for _, x := range o.Owned {
+				ow = append(ow, fmt.Sprintf("%d:%d:%s:%s", x.Index, x.Value, bvHxo(x.AssetBlinder), bvHxo(x.ValueBlinder)))
+			}
+			parts = append(parts, fmt.Sprintf("o%d=%s", k, strings.Join(ow, ",")))
 		}
 		parts = append(parts, fmt.Sprintf("p%d=%s", k, s))
 	}
@@ -685,26 +750,83 @@ func bvV2ResultLine(w *bvWorld, r *bvV2Result) string {
 	return line
 }
 
-func runBV2Line(t *Toks) string {
-	sh := bvReadShape(t, false)
-	needProofs := false
+func bvNeedProofs(sh *bvShape, shared bool) bool {
+	if shared {
+		return true
+	}
 	for _, p := range sh.Parties {
 		if p.Ctor != 0 {
-			needProofs = true
+			return true
 		}
 	}
-	w := bvBuildWorld(sh, needProofs, false)
+	return false
+}
+
+// one bv2 scenario from its tokens (shape, openings, "|", observed part)
+func bvRunV2Tokens(t *Toks, shared bvZkpGen) (string, *bvWorld, *bvV2Result) {
+	sh := bvReadShape(t, false)
+	w := bvBuildWorld(sh, bvNeedProofs(sh, shared != nil), false)
 	bvReadOpenings(t, w)
-	r := bvRunV2(w)
+	r := bvRunV2With(w, shared)
 	// the observed part of the line must replay exactly (determinism of the scenario)
 	rest := strings.Join(t.l, " ")
 	if i := strings.Index(rest, "| "); i >= 0 {
 		rest = rest[i+2:]
 	}
 	if strings.TrimSpace(rest) != r.obsString() {
-		return "replay-mismatch " + bvV2ResultLine(w, r)
+		return "replay-mismatch " + bvV2ResultLine(w, r), w, r
 	}
-	return bvV2ResultLine(w, r)
+	return bvV2ResultLine(w, r), w, r
+}
+
+func runBV2Line(t *Toks) string {
+	line, _, _ := bvRunV2Tokens(t, nil)
+	return line
+}
+
+// ---- history family bvh: ONE generator object (built from all blinding keys) blinds several
+// packets one after the other; the sub-scenarios are bv2 bodies separated by ";;"
+func bvSplitHist(t *Toks) []*Toks {
+	var subs []*Toks
+	for _, part := range strings.Split(strings.Join(t.l, " "), " ;; ") {
+		part = strings.TrimSpace(part)
+		if part != "" {
+			subs = append(subs, &Toks{l: strings.Split(part, " "), line: part})
+		}
+	}
+	return subs
+}
+
+func bvSharedGen(shapes []*bvShape) bvZkpGen {
+	keys := [][]byte{}
+	for _, sh := range shapes {
+		w := bvBuildWorld(sh, false, false)
+		for _, wi := range w.ins {
+			keys = append(keys, wi.blindPriv)
+		}
+	}
+	opts := &confidential.ZKPGeneratorOpts{Rng: bvDetRng(shapes[0].Seed, 99, 0)}
+	return confidential.NewZKPGeneratorFromBlindingKeys(keys, opts)
+}
+
+func bvHistShapes(subs []*Toks) []*bvShape {
+	var shapes []*bvShape
+	for _, st := range subs {
+		c := &Toks{l: append([]string{}, st.l...), line: st.line}
+		shapes = append(shapes, bvReadShape(c, false))
+	}
+	return shapes
+}
+
+func runBVHLine(t *Toks) string {
+	subs := bvSplitHist(t)
+	gen := bvSharedGen(bvHistShapes(subs))
+	var out []string
+	for _, st := range subs {
+		line, _, _ := bvRunV2Tokens(st, gen)
+		out = append(out, line)
+	}
+	return strings.Join(out, " ;; ")
 }
 
 // ---------------------------------------------------------------- independent arithmetic
